@@ -982,13 +982,13 @@ def cases(tier):
     cs += [H3("su2"), H3("gen", overwrite=True), H3("identity", named=False), H3("sy")]
     cs += [H4("name_then_description"), H4("description_then_name"), H4("description_only", initial=False)]
     cs += [H6()]
-    cs += [H5(1, 1, 4, "full"), H5(2, 2, 3, True), H5(1, 1, 4, "in_full"), H5(3, 2, 3, False), H5(2, 2, 4, "out"), H5(2, 2, 4, True),
-           H5(1, 1, 3, "full")]
+    # rank-3 tensors WITH transforms are not demanded (which trace weights are meant is not fixed by the property, see C03/H6)
+    cs += [H5(1, 1, 4, "full"), H5(1, 1, 4, "in_full"), H5(3, 2, 3, False), H5(2, 2, 4, "out"), H5(2, 2, 4, True)]
     if tier == "thorough":
         cs += [H5(N, 2 if N > 1 else 1, rank, tr) for N in (1, 2, 3) for rank in (3, 4)
                for tr in (False, True, "full", "in", "out", "in_full", "out_full")
                if not (tr == "full" and N > 1)       # two full symbolic transforms with N >= 2: solver unknown at 300 s (probed), outside the bound
-               and not (N == 3 and rank == 4 and tr)]  # N = 3, rank 4 with any symbolic transform: not decided within 150 s (probed), outside the bound
+               and not (N == 3 and rank == 4 and tr) and not (rank == 3 and tr)]  # N = 3, rank 4 with any symbolic transform: not decided within 150 s (probed), outside the bound
         cs = [c for i, c in enumerate(cs) if not any(c.id == x.id for x in cs[:i])]
         for kind in ("file", "simple"):
             for N in (1, 2, 3):
